@@ -364,9 +364,10 @@ def main(argv=None):
         if k not in buckets or size < buckets[k][0]:
             buckets[k] = (size, spec, vs, origin)
     out_lines = []
-    os.makedirs(os.path.join("replays", cid), exist_ok=True)
+    out_dir = os.environ.get("VERIF_OUT", core.VERIF_DIR)  # self-tests redirect their output
+    os.makedirs(os.path.join(out_dir, "replays", cid), exist_ok=True)
     for k, (size, spec, vs, origin) in sorted(buckets.items(), key=lambda kv: str(kv[0])):
-        path = os.path.join(core.VERIF_DIR, "replays", cid, core.h(spec) + ".json")
+        path = os.path.join(out_dir, "replays", cid, core.h(spec) + ".json")
         with open(path, "w") as fh:
             json.dump(
                 {"property": cid, "tier": tier, "seed": seed, "origin": origin,
@@ -407,9 +408,9 @@ def main(argv=None):
     }
     if hasattr(meta, "extra_evidence"):
         ev["coverage"].update(meta.extra_evidence(agg))
-    os.makedirs("evidence", exist_ok=True)
+    os.makedirs(os.path.join(out_dir, "evidence"), exist_ok=True)
     if not errors:
-        with open(os.path.join("evidence", f"{cid}.json"), "w") as fh:
+        with open(os.path.join(out_dir, "evidence", f"{cid}.json"), "w") as fh:
             json.dump(ev, fh, indent=1, default=core._default)
 
     for line in known_lines:
